@@ -59,14 +59,27 @@ def trimMem (n : Nat) (l : List (Entry × Loc)) : List (Entry × Loc) :=
 /-- Memory entries go to the current file. -/
 def gFlush (g : Ghost) : Ghost := { g with log := retag .mem .cur g.log }
 
-def gStep (g : Ghost) : Op → Ghost
-  | .add e =>
+/-- Recording one query. -/
+def gAdd (g : Ghost) (e : Entry) : Ghost :=
     if !g.conf.enabled then g else
     -- the memory part is a ring of `memSize` (at least one) entries
     let log := trimMem (ringCap g.conf) (g.log ++ [(e, .mem)])
     let g' := { g with log := log }
     -- "MemSize is the number of entries kept in memory before they are flushed to disk"
     if g.conf.fileEnabled && decide (countLoc .mem log ≥ g.conf.memSize) then gFlush g' else g'
+
+def gRestart (g : Ghost) (m : Nat) (f en : Bool) : Ghost :=
+  let g1 := if g.conf.fileEnabled then gFlush g else g
+  { log := g1.log.filter (fun x => x.2 ≠ .mem),
+    conf := { g1.conf with memSize := m, fileEnabled := f, enabled := en } }
+
+def gStep (g : Ghost) : Op → Ghost
+  | .add e => gAdd g e
+  -- whether the clear / shutdown / restart comes before or after the flush the
+  -- record started makes no difference to what is recorded
+  | .addThen e .clear => { gAdd g e with log := [] }
+  | .addThen e .shutdown => let g1 := gAdd g e; if g1.conf.fileEnabled then gFlush g1 else g1
+  | .addThen e (.restart m f en) => gRestart (gAdd g e) m f en
   | .shutdown => if g.conf.fileEnabled then gFlush g else g
   | .rotate =>
     if countLoc .cur g.log = 0 then g
@@ -78,10 +91,7 @@ def gStep (g : Ghost) : Op → Ghost
       if first.1.ts + g.conf.ivl > now then g
       else { g with log := retag .cur .rot (g.log.filter (fun x => x.2 ≠ .rot)) }
   | .clear => { g with log := [] }
-  | .restart m f en =>
-    let g1 := if g.conf.fileEnabled then gFlush g else g
-    { log := g1.log.filter (fun x => x.2 ≠ .mem),
-      conf := { g1.conf with memSize := m, fileEnabled := f, enabled := en } }
+  | .restart m f en => gRestart g m f en
   | .putConf en an ivlMs ign =>
     if ivlMs < minIvlMs ∨ ivlMs > maxIvlMs then g
     else { g with conf := { g.conf with enabled := en, anonymize := an, ivl := ivlMs * msNs, ignored := ign } }
@@ -164,7 +174,7 @@ def askTerm (r : Req) : Option (Option (Bytes × Bytes × Bool)) :=
   else if r.asciiErr then none
   else
     let u := unquote r.searchRaw
-    some (some (u.1, (if r.asciiRet = lower u.1 then [] else r.asciiRet), u.2))
+    some (some (u.1, (if r.asciiRet = r.loweredRaw then [] else r.asciiRet), u.2))
 
 def askOlder (r : Req) : Option (Option Int) :=
   match r.older with
@@ -316,6 +326,7 @@ scan budget is at least two records (or unlimited). -/
 def histOK : Int → List Event → Prop
   | _, [] => True
   | last, .op (.add e) :: rest => last < e.ts ∧ histOK e.ts rest
+  | last, .op (.addThen e _) :: rest => last < e.ts ∧ histOK e.ts rest
   | last, .op _ :: rest => histOK last rest
   | last, .search sd _ :: rest => (2 ≤ sd ∨ sd ≤ 0) ∧ histOK last rest
 
